@@ -66,6 +66,7 @@ type HeapVer struct {
 }
 
 type State struct {
+	approx   string     // non-empty: this path crossed an over-approximation (a loop without invariant); a sat behind it is not a counterexample
 	defers   []deferRec // deferred closure literals of the functions on the (inlining) stack, oldest first
 	vars     map[types.Object]Term
 	fields   map[string]*HeapVer
@@ -103,6 +104,7 @@ func (s *State) clone() *State {
 		trace:    append([]string(nil), s.trace...),
 		astEpoch: s.astEpoch,
 		defers:   append([]deferRec(nil), s.defers...),
+		approx:   s.approx,
 	}
 	for k, v := range s.vars {
 		n.vars[k] = v
